@@ -40,6 +40,14 @@ def faults():
     f["garbage-40"] = bytes((i * 7 + 3) % 256 for i in range(40))
     f["misaddressed-host"] = node.app_request(4, dest_host="elsewhere.example")
     f["misaddressed-realm"] = node.app_request(5, dest_realm="realm.elsewhere")
+    # well-framed application requests whose text AVPs hold bytes that are not UTF-8 (the decoder does not
+    # interpret them; whoever formats, logs or compares them afterwards must not fall over)
+    base = [(263, 0x40, None, b"s;77"), (264, 0x40, None, node.PEER["host"].encode()), (296, 0x40, None, node.PEER["realm"].encode()),
+            (283, 0x40, None, node.LOCAL["realm"].encode())]
+    for label, code in (("session-id", 263), ("origin-host", 264), ("origin-realm", 296), ("dest-realm", 283)):
+        f[f"nonutf8-{label}"] = body([(c, fl, v, b"\xff\xfe\xc3\x28" if c == code else d) for c, fl, v, d in base])
+    for label, code in (("user-name", 1), ("dest-host", 293), ("error-message", 281), ("route-record", 282)):
+        f[f"nonutf8-{label}"] = body(base + [(code, 0x40, None, b"\xff\xfe\xc3\x28")])
     f["cer-bad-address"] = refcodec.enc_msg((1, 0x80, 257, 0, 1, 2, [
         (264, 0x40, None, node.PEER["host"].encode()), (296, 0x40, None, node.PEER["realm"].encode()),
         (257, 0x40, None, b"\x00\x01\x7f"), (266, 0x40, None, (0).to_bytes(4, "big")), (269, 0, None, b"p")]))
